@@ -223,7 +223,48 @@ fn main() {
         if cfgv.fired > 0 {
             fired.push(format!("R0-cfg x{}", cfgv.fired));
         }
+        // lines of /repo this item puts under contract (default: its span; nothing for contract-only stubs and for the
+        // purely syntactic kinds) - the driver's glue account subtracts them from the functions of the crate
+        let mut covered_override: Option<Vec<(usize, usize)>> = None;
         let (text, span) = match kind.as_str() {
+            "fn_index" => {
+                // every function of the file outside `#[cfg(test)]` modules: qualified name and line span
+                let mut out_fns: Vec<Value> = vec![];
+                fn walk_idx(items: &[Item], prefix: &str, out: &mut Vec<Value>) {
+                    for it in items {
+                        match it {
+                            Item::Fn(f) => out.push(json!({"name": format!("{}{}", prefix, f.sig.ident), "span": [full_span(f).0, full_span(f).1]})),
+                            Item::Impl(im) => {
+                                let st = type_ident(&im.self_ty).unwrap_or_else(|| norm(&im.self_ty));
+                                let tr = im.trait_.as_ref().map(|(_, p, _)| format!("<{}>", norm(p))).unwrap_or_default();
+                                for ii in &im.items {
+                                    if let ImplItem::Fn(f) = ii {
+                                        out.push(json!({"name": format!("{}{}{}::{}", prefix, st, tr, f.sig.ident), "span": [full_span(f).0, full_span(f).1]}));
+                                    }
+                                }
+                            }
+                            Item::Mod(m) => {
+                                let is_test = m.attrs.iter().any(|a| a.path().is_ident("cfg") && a.meta.to_token_stream().to_string().replace(' ', "").contains("cfg(test)"));
+                                if is_test { continue; }
+                                if let Some((_, items)) = &m.content { walk_idx(items, &format!("{}{}::", prefix, m.ident), out); }
+                            }
+                            Item::Trait(t) => {
+                                for ti in &t.items {
+                                    if let TraitItem::Fn(f) = ti {
+                                        if f.default.is_some() { out.push(json!({"name": format!("{}{}::{}", prefix, t.ident, f.sig.ident), "span": [full_span(f).0, full_span(f).1]})); }
+                                    }
+                                }
+                            }
+                            _ => {}
+                        }
+                    }
+                }
+                // the index is taken from the file as written (all cfg alternatives), not from the cfg-evaluated copy
+                let raw = syn::parse_file(&src).unwrap();
+                walk_idx(&raw.items, "", &mut out_fns);
+                covered_override = Some(vec![]);
+                (Value::Array(out_fns).to_string(), (1usize, 1usize))
+            }
             "fn" | "impl_fn" => {
                 let (mut sig, mut block, _attrs, span, shell) = match find_fn(&file, item) {
                     Some(x) => x,
@@ -278,6 +319,14 @@ fn main() {
                 }
                 let marker_name = s(item, "marker_name").unwrap_or_else(|| sig.ident.to_string());
                 let contract_only = item.get("contract_only").and_then(|x| x.as_bool()).unwrap_or(false);
+                if contract_only {
+                    covered_override = Some(vec![]);
+                } else if s(item, "until").is_some() || item.get("drop_tail").and_then(|x| x.as_bool()).unwrap_or(false) {
+                    // a prologue: from the function's first line to the last statement kept
+                    let mut hi = full_span(&sig).1;
+                    for st in block.stmts.iter() { hi = hi.max(full_span(st).1); }
+                    covered_override = Some(vec![(span.0, hi)]);
+                }
                 // R21: a by-value `mut self` receiver (not supported by Verus) becomes `self` + `let mut vx_self = self;`
                 // with every `self` of the body renamed: the same move, spelled with a local
                 if let Some(FnArg::Receiver(r)) = sig.inputs.first_mut() {
@@ -447,6 +496,12 @@ fn main() {
                         Some(i) => { body.stmts = block.stmts[i + 1..].to_vec(); }
                         None => fail("anchor-lost", format!("{}: no `let {} = ..` in fn {}", name, after, fsig.ident)),
                     }
+                }
+                {
+                    let mut lo = usize::MAX; let mut hi = 0usize;
+                    // statements parsed from a string of the unit description (`ret_expr`) sit on "line 1": not source positions
+                    for st in body.stmts.iter() { let (a, b) = full_span(st); if b <= 1 { continue; } if a > 1 { lo = lo.min(a); } hi = hi.max(b); }
+                    if lo != usize::MAX { covered_override = Some(vec![(lo, hi)]); }
                 }
                 rules::apply_all(&mut body, item, &mut fired, &name);
                 rules::mark_ret(&mut body, &as_fn, false);
@@ -821,7 +876,9 @@ fn main() {
         };
         out.insert(
             name,
-            json!({"text": text, "file": file_rel, "span": [span.0, span.1], "rules": fired, "orig": orig}),
+            json!({"text": text, "file": file_rel, "span": [span.0, span.1], "rules": fired, "orig": orig,
+                   "covered": covered_override.unwrap_or_else(|| if matches!(kind.as_str(), "statics" | "binders" | "serde_attrs" | "call_arg") { vec![] } else { vec![span] })
+                       .into_iter().map(|(a, b)| vec![a, b]).collect::<Vec<_>>()}),
         );
     }
     println!("{}", Value::Object(out));
